@@ -14,7 +14,7 @@ import ast
 from ..astutil import dotted, norm, walk_local
 from ..core import Ctx, PropSpec, Unsupported
 from ..extract import where
-from ..interp import ExcVal, Raised, StepLimit
+from ..interp import pub, ExcVal, Raised, StepLimit
 from ..models import ccsds_bytes
 from ..xmlmodel import all_elements, attach_nsmap, split_tag
 from . import xmlcommon as X
@@ -116,13 +116,15 @@ def build_document(h):
         if loc == "SequenceContainer" and e.attrs["attrib"].get("name") == "B":
             e.attrs["attrib"]["abstract"] = "True"
         if loc == "SequenceContainer" and e.attrs["attrib"].get("name") == "CCSDSPacket":
-            e.attrs["attrib"]["abstract"] = "TRUE"
+            e.attrs["attrib"]["abstract"] = "1"           # xs:boolean: true | false | 1 | 0
         if loc == "SequenceContainer" and e.attrs["attrib"].get("name") == "E1":
             for b in all_elements(e):
                 if split_tag(b.attrs["tag"])[1] == "BaseContainer":
                     b.attrs["__children__"][:] = []
-        if loc == "SequenceContainer" and e.attrs["attrib"].get("name") in ("A", "D1"):
+        if loc == "SequenceContainer" and e.attrs["attrib"].get("name") == "A":
             e.attrs["attrib"].pop("abstract", None)       # absent attribute = concrete
+        if loc == "SequenceContainer" and e.attrs["attrib"].get("name") == "D1":
+            e.attrs["attrib"]["abstract"] = "0"
     # the nested block is declared AFTER the containers that use it (it is parsed on demand from inside their entry lists) and
     # carries its own abstract flag, which must not leak into its users
     for cs in [e for e in all_elements(g) if split_tag(e.attrs["tag"])[1] == "ContainerSet"]:
@@ -176,7 +178,7 @@ def table(ctx: Ctx):
             pd = y.kwargs.get("partial_data") if isinstance(y, ExcVal) else None
             ok = isinstance(y, ExcVal) and y.tname == "UnrecognizedPacketTypeError" and isinstance(pd, dict) and \
                 [(k2, int(v)) for k2, v in pd.items()] == items and getattr(pd, "cls", None) == "CCSDSPacket" and \
-                "raw_data" in getattr(pd, "attrs", {})       # the packet object itself (items, header/user views, raw bytes)
+                pub(pd, "raw_data") is not None       # the packet object itself (items, header/user views, raw bytes)
             why = (f"{desc}: yielded {('a packet with ' + str(list(y))) if isinstance(y, dict) else repr(y)}"
                    f"{' with partial data ' + str([(k2, int(v)) for k2, v in pd.items()]) + ' held in a ' + str(getattr(pd, 'cls', None) or type(pd).__name__) if isinstance(pd, dict) else ''}; expected an "
                    f"unrecognized-packet report carrying the packet object with {items}")
@@ -313,7 +315,8 @@ SPEC = PropSpec(
                  "partial data of the unrecognized reports and the header/user-data split are stated by the checker. R5.5 "
                  "structural: no literal-keyed lookup on the packet mapping inside the raise expressions."
                  ' R5.view: header / user-data views for 0..10 decoded items. R5.e2 / R5.e: the two end-to-end documents of C01 (selection clauses: ambiguous siblings, nested boolean criteria, conditions on raw vs calibrated operands, concrete root without a matching child).'
-                 ' R5.pure: container selection keeps nothing on the definition between packets (effect analysis); R5.fresh: decoding starts at bit 0 of every packet; the nested block of the tree document is declared after its users and carries its own abstract flag; an unrecognized-packet report carries the packet object itself.'),
+                 ' R5.pure: container selection keeps nothing on the definition between packets (effect analysis); R5.fresh: decoding starts at bit 0 of every packet; the nested block of the tree document is declared after its users and carries its own abstract flag; an unrecognized-packet report carries the packet object itself.'
+                 ' R5.e3: the hand-written document of R1.e3 (range and contradiction comparison lists as restriction criteria, APID 0 and 2047).'),
     rule_doc="R5.1 one obligation per steering packet (+ whole stream); R5.5 per raise site",
     assumptions=["criteria evaluation is correct (C06)", "integer decoding is correct (C03/C04)"],
     mutants=mutants,
